@@ -304,10 +304,42 @@ def rule_5(ctx):
     c06.rule_2(ctx)
 
 
+HISTORY_CELLS = {
+    'A1': 5, 'A2': 100, 'A3': 7, 'B1': '=A1+1', 'B2': '=A2*2', 'B3': '=A3-1', 'C1': '=B1*2', 'D1': '=SUM(B1:B3)+A2', 'E1': '=D1-C1',
+    'F1': '=IF(A1>0,B1,C1)', 'G1': '=AND(B1:B3)', 'H1': '=SUM(B1:B2,B3)', 'I1': '=IF(G1,"all",IF(OR(B1:B3),"some","none"))',
+    'J1': '=MAX(A1:A3)&"|"&MIN(B1:B3)', 'K1': '=IF(NOT(A1>A3),A2,-A2)', 'L1': '=COUNT(A1:B3)+AVERAGE(B1:B3)',
+}
+_ALL = ['B1', 'C1', 'D1', 'E1', 'F1', 'G1', 'H1', 'I1', 'J1', 'K1', 'L1']
+
+
+def _history_steps(full):
+    ev = [('eval', a) for a in _ALL]
+    some = [('eval', a) for a in ('E1', 'F1', 'G1', 'H1', 'I1', 'K1')]
+    steps = ev + [('set', 'A1', -1)] + ev + [('set', 'A3', 1)] + some + [('set', 'A2', 0), ('set', 'A1', 5)] + ev
+    if full:
+        steps += [('set', 'A3', 9), ('eval', 'J1'), ('eval', 'B3'), ('set', 'A2', -3), ('eval', 'D1'), ('eval', 'E1'), ('set', 'A1', 0)] + ev
+    return steps
+
+
+def rule_6(ctx):
+    """Histories of set_cell_value / evaluate on a whole witness workbook (chains, a diamond, ranges over formula cells, lazily
+    evaluated IF / AND / OR arguments, text results), everything interpreted as written: after every evaluate the value equals
+    what a freshly compiled model with the current inputs returns, and the model stores it; the same through Model.set_cell_value."""
+    from . import scenarios as S
+    anchor = ctx.mod('evaluator').func('Evaluator.evaluate')
+    cache = {}
+    why = 'Nothing kept from an earlier evaluation - on nodes, contexts, ranges, the evaluator or a module-level cache - may decide a later one.'
+    n = S.check_history(ctx, anchor, 'history', HISTORY_CELLS, _history_steps(ctx.tier != 'quick'), why=why, cache=cache)
+    short = [('eval', 'E1'), ('eval', 'I1'), ('set', 'A1', -1), ('eval', 'E1'), ('eval', 'F1'), ('set', 'A3', 1), ('eval', 'I1'), ('eval', 'G1')]
+    n += S.check_history(ctx, anchor, 'history through the model', HISTORY_CELLS, short, why=why, cache=cache, through_model=True)
+    ctx.floor(60, 'evaluations compared with a freshly compiled model')
+
+
 RULES = [
     ('C04.1', 'nothing written back by an evaluation is read by a later one', rule_1),
     ('C04.2', 'memo scope: per-call objects only', rule_2),
     ('C04.3', 'the cells map holds cell objects', rule_3),
     ('C04.4', 'set/get/evaluate agree on name indirection and use the cells map', rule_4),
     ('C04.5', 'evaluator-level state is restored on every exit of an evaluation (shared with C06.2)', rule_5),
+    ('C04.6', 'set/evaluate histories on a whole witness workbook equal freshly compiled models', rule_6),
 ]
